@@ -17,6 +17,16 @@ def check(v, tier, seed):
     if r["violated"]:
         v.cov["parts"]["MC_Alloc"]["model_violation"] = r["violated"]
     merged, probes = faultcommon.sweep(v, "plain", tier, seed, wd)
+    # the streams the models generate (MC_EbDecoder / MC_SeqDecoder / MC_LegacyKd / MC_KdTree rows: declared counts on and beyond every guard), each
+    # decoded as it is with the same allocation accounting
+    import c02_model
+    r, rowf = c02_model.rows_for(tier, wd)
+    if rowf is not None:
+        m2, p2 = faultcommon.sweep(v, "plain", tier, seed, wd, corpus=rowf, tag="rows")
+        with open(merged, "a") as o:
+            o.write(open(m2).read())
+        probes += p2
+        v.cov["model_rows_probed"] = p2
     recs, n = faultcommon.validate(v, "C18", merged, "an allocation (or the peak of live memory) while decoding exceeds K0 + K*(input length + declared counts)")
     pr = [x for x in recs if x["e"] == "Probe" and x["allocs"]]
     v.cov["evaluations"] = probes
